@@ -14,11 +14,18 @@ use serde_json::json;
 use std::io::Write;
 use std::sync::Arc;
 
-fn subapp(tag: String, routes: &[String], ws: &[String]) -> SubApp<()> {
+fn subapp(tag: String, routes: &[String], ws: &[String], cfg: &Cfg) -> SubApp<()> {
     let mut s: SubApp<()> = SubApp::new();
     for (i, r) in routes.iter().enumerate() {
         let id = format!("{}r{}", tag, i);
-        s = s.with_route(r, move |_req: Request, _st: Arc<()>| Response::new(StatusCode::OK, id.as_bytes()));
+        s = match cfg.kind(i) {
+            0 => s.with_route(r, move |_req: Request, _st: Arc<()>| Response::new(StatusCode::OK, id.as_bytes())),
+            1 => s.with_stateless_route(r, move |_req: Request| Response::new(StatusCode::OK, id.as_bytes())),
+            _ => {
+                let reg = leak(r);
+                s.with_path_aware_route(reg, move |_req: Request, _st: Arc<()>, route: &'static str| Response::new(StatusCode::OK, path_aware_answer(&id, reg, route)))
+            }
+        };
     }
     for (i, r) in ws.iter().enumerate() {
         let id = format!("{}w{}", tag, i);
@@ -31,9 +38,29 @@ fn subapp(tag: String, routes: &[String], ws: &[String]) -> SubApp<()> {
 
 pub fn build(cfg: &Cfg) -> App<()> {
     let mut app: App<()> = App::new_with_config(1, ());
-    app = app.with_default_subapp(subapp("d".into(), &cfg.default_routes, &cfg.default_ws));
+    if cfg.direct {
+        for (i, r) in cfg.default_routes.iter().enumerate() {
+            let id = format!("dr{}", i);
+            app = match cfg.kind(i) {
+                0 => app.with_route(r, move |_req: Request, _st: Arc<()>| Response::new(StatusCode::OK, id.as_bytes())),
+                1 => app.with_stateless_route(r, move |_req: Request| Response::new(StatusCode::OK, id.as_bytes())),
+                _ => {
+                    let reg = leak(r);
+                    app.with_path_aware_route(reg, move |_req: Request, _st: Arc<()>, route: &'static str| Response::new(StatusCode::OK, path_aware_answer(&id, reg, route)))
+                }
+            };
+        }
+        for (i, r) in cfg.default_ws.iter().enumerate() {
+            let id = format!("dw{}", i);
+            app = app.with_websocket_route(r, move |_req: Request, mut stream: Stream, _st: Arc<()>| {
+                let _ = stream.write_all(id.as_bytes());
+            });
+        }
+    } else {
+        app = app.with_default_subapp(subapp("d".into(), &cfg.default_routes, &cfg.default_ws, cfg));
+    }
     for (i, (h, routes, ws)) in cfg.hosts.iter().enumerate() {
-        app = app.with_host(h, subapp(format!("h{}", i), routes, ws));
+        app = app.with_host(h, subapp(format!("h{}", i), routes, ws, cfg));
     }
     app
 }
